@@ -14,12 +14,16 @@
   * `c06_accept_iff`: a request is accepted ⇔ request line ⧺ a header block accepted by the block
     grammar (`BlockSpec`, C08/C14), with `n` the total length consumed and the headers those of
     the block.
+  * `c06_request_default_iff` / `c06_request_default_result`: under the default configuration the
+    block is a list of at most `cap` header lines of the default grammar (`HLine.ok`, C08) and an
+    empty line; the fields and headers are those of the decomposition.
 -/
 import Hx.Spec.Grammar
 import Hx.Parse.Lines
 import Hx.Lemmas.StartGrammar
 import Hx.Lemmas.BlockGrammar
 import Hx.Lemmas.WholeMessage
+import Hx.Lemmas.EndToEnd
 namespace Hx
 
 theorem c06_line_iff (be : Backend) (hbe : be.Exact) (multi : Bool) (buf : List Byte)
@@ -65,6 +69,30 @@ theorem c06_accept_fields (be : Backend) (hbe : be.Exact) (cfg : Config) (cap : 
     (reqCore be cfg cap buf v₀).val =
       ⟨some ⟨pre.length, mb⟩, some ⟨pre.length + mb.length + sp₁.length, t⟩, some v⟩ :=
   reqCore_ok_fields be hbe cfg cap buf v₀ hl hb' hblk
+
+/-- default configuration, whole request: accepted ⇔ request line of the grammar, then at most `cap`
+header lines of the default grammar, then an empty line; `n` is the total length -/
+theorem c06_request_default_iff (be : Backend) (hbe : be.Exact) (cap : Nat) (buf : List Byte) (v₀ : ReqVal)
+    (n : Nat) :
+    (reqCore be Config.default cap buf v₀).status = .ok n ↔
+      ∃ (pre mb sp₁ t sp₂ : List Byte) (v : Nat) (eol : List Byte) (lines : List HLine) (eol' rest : List Byte),
+        IsRequestLine false pre mb sp₁ t sp₂ v eol ∧ (∀ l ∈ lines, l.ok) ∧ IsEol eol' ∧
+        lines.length ≤ cap ∧
+        buf = requestLineBytes pre mb sp₁ t sp₂ v eol ++ (lines.map HLine.bytes).flatten ++ eol' ++ rest ∧
+        n = (requestLineBytes pre mb sp₁ t sp₂ v eol ++ (lines.map HLine.bytes).flatten ++ eol').length :=
+  reqCore_default_iff be hbe cap buf v₀ n
+
+/-- and then method/path/version/headers are exactly those of the decomposition -/
+theorem c06_request_default_result (be : Backend) (hbe : be.Exact) (cap : Nat) (buf : List Byte) (v₀ : ReqVal)
+    {pre mb sp₁ t sp₂ eol eol' rest : List Byte} {v : Nat} {lines : List HLine}
+    (hl : IsRequestLine false pre mb sp₁ t sp₂ v eol) (hok : ∀ l ∈ lines, l.ok) (he : IsEol eol')
+    (hcap : lines.length ≤ cap)
+    (hbuf : buf = requestLineBytes pre mb sp₁ t sp₂ v eol ++ (lines.map HLine.bytes).flatten ++ eol' ++ rest) :
+    (reqCore be Config.default cap buf v₀).val =
+      ⟨some ⟨pre.length, mb⟩, some ⟨pre.length + mb.length + sp₁.length, t⟩, some v⟩ ∧
+    (reqCore be Config.default cap buf v₀).hdrs =
+      linesHeaders (requestLineBytes pre mb sp₁ t sp₂ v eol).length lines :=
+  reqCore_default_result be hbe cap buf v₀ hl hok he hcap hbuf
 
 /-- non-vacuity: a concrete request line in the grammar -/
 example : IsRequestLine false [] [0x47, 0x45, 0x54] [SP] [0x2F] [SP] 1 [CR, LF] :=
